@@ -141,4 +141,25 @@ def sramSel (paging page depth pv adr : Nat) : Option Nat :=
     some (adr % 2 ^ (ab - pb) + (pv % 2 ^ pb) * 2 ^ (ab - pb))
   else none
 
+/-! ### CSR memories whose word is `n` bus words wide (`csrw_per_memw = n`, a power of two) -/
+
+/-- `(memory word, sub-word)` selected by CSR-bus address `adr`: `port.adr = Cat(adr[word_bits : …], pv)`, the sub-word
+    is `adr[:word_bits]`; the page count is taken over `depth·n` CSR words. -/
+def sramSelWide (paging page depth n pv adr : Nat) : Option (Nat × Nat) :=
+  if adr / (paging / 4) = page then
+    let ab := bitsFor (depth - 1)
+    let pb := clog2 ((depth * n + paging / 4 - 1) / (paging / 4))
+    some ((adr / n) % 2 ^ (ab - pb) + (pv % 2 ^ pb) * 2 ^ (ab - pb), adr % n)
+  else none
+
+/-- The memory word assembled from its `n` sub-words of `dw` bits (address order): sub-word 0 is the most significant
+    chunk (`Cat(bus.dat_w, reversed(wregs))` on writes, `chooser(..., reverse=True)` on reads); the write port fires
+    with sub-word `n-1`. -/
+def wideWord (dw : Nat) : List Nat → Nat
+  | [] => 0
+  | x :: rest => (x % 2 ^ dw) * 2 ^ (dw * rest.length) + wideWord dw rest
+
+/-- Sub-word `k` of a memory word as the read path presents it. -/
+def wideSub (dw n word k : Nat) : Nat := (word / 2 ^ (dw * (n - 1 - k))) % 2 ^ dw
+
 end Litex.Export
